@@ -70,3 +70,11 @@ Print Assumptions C18_annotation_coordinates_refused.
 Theorem C18_old_sam_variants_coordinates_refuted : exists reflen a, coords_ok reflen a = false /\ old_sam_variants_coords reflen a = true.
 Proof. exact old_sam_variants_coords_refuted. Qed.
 Print Assumptions C18_old_sam_variants_coordinates_refuted.
+
+(* a --reference of another length than the SAM header's @SQ line gives: refused (repair D22) *)
+Theorem C18_sam_reference_length_refused : forall reflen sq_len, reflen <> sq_len -> sam_reference_ok reflen sq_len = false.
+Proof. exact sam_reference_mismatch_refused. Qed.
+Print Assumptions C18_sam_reference_length_refused.
+Theorem C18_old_sam_reference_check_refuted : exists reflen sq_len, sam_reference_ok reflen sq_len = false /\ old_sam_reference_ok reflen sq_len = true.
+Proof. exact old_sam_reference_refuted. Qed.
+Print Assumptions C18_old_sam_reference_check_refuted.
